@@ -8,6 +8,7 @@ usage: tools_seed.py <seed_out dir> <A|B> <PROP> <id> "<summary>" "<needs>"
 """
 import json, os, re, shutil, subprocess, sys
 src, which, prop, sid, summary, needs = sys.argv[1:7]
+rnd = int(sys.argv[7]) if len(sys.argv) > 7 else 1
 patch = os.path.join(src, f'{which}.diff')
 demo_src = os.path.join(src, f'{which}_demo.py')
 os.makedirs('/tmp/seedrun/x', exist_ok=True)
@@ -55,7 +56,9 @@ shutil.copy(demo_src, os.path.join(out, 'demo.py'))
 if os.path.exists(notes):
     shutil.copy(notes, os.path.join(out, 'notes.md'))
 own = caught.get(prop)
-meta = {'property': prop, 'summary': summary, 'needs': needs,
+meta = {'property': prop, 'round': rnd, 'summary': summary, 'needs': needs,
+        'caught_at_first_run': any(v['rc'] == 1 for v in caught.values()),
+        'caught_after_strengthening': {p: [k.split(' ')[0] for k in v['keys'] if k.startswith('C')][:4] for p, v in caught.items() if v['rc'] == 1},
         'ran': ['git -C /repo apply patch.diff', '/verif/tools_run_suite.sh -> ' + suite, 'PYTHONPATH=/repo python demo.py -> rc %d with the change, rc %d without' % (d1.returncode, d0.returncode),
                 'all 20 quick checks with the change applied', 'git -C /repo checkout -- .'],
         'caught_by': ', '.join(f"{p} ({'; '.join(k.split(':', 1)[0] for k in v['keys'][:3])})" for p, v in caught.items() if v['rc'] == 1) or None,
